@@ -68,10 +68,7 @@ func Run(mode Mode, cfg *hx.RunCfg, emit func(res *hx.Result, o *Outcome)) (*hx.
 		}
 		for _, f := range o.Findings {
 			if f.Prop == mode.Prop {
-				sig := f.Sig
-				if !strings.HasPrefix(sig, "orphan-value-blob/") && !strings.HasPrefix(sig, "retry-") {
-					sig += "@" + site // value-blob duplication and retry causes are classified by cause, everything else by where the failure was injected
-				}
+				sig := classify(f.Sig, site, c)
 				res.Fail(sig, f.What, c)
 			}
 		}
@@ -104,6 +101,45 @@ func Run(mode Mode, cfg *hx.RunCfg, emit func(res *hx.Result, o *Outcome)) (*hx.
 		}
 		record(o)
 		return res, nil
+	}
+
+	// deterministic corpus first
+	for _, ce := range Corpus() {
+		subject := len(ce.Program.Txns) - 1
+		folder, ref, created, err := rn.Prefix(ce.Program, subject)
+		if err != nil {
+			return nil, fmt.Errorf("corpus %s: %v", ce.Name, err)
+		}
+		base, err := rn.RunCase(&Case{Program: ce.Program, Subject: subject, Fault: Fault{Index: -1}}, folder, ref, created)
+		if err != nil {
+			return nil, fmt.Errorf("corpus %s: %v", ce.Name, err)
+		}
+		for k, site := range ce.Sites {
+			if site == "" {
+				record(base)
+				continue
+			}
+			if !mode.Faults {
+				continue
+			}
+			idx := -1
+			for i := range base.Out.Events {
+				if faultSite(base.Out, Fault{Index: i, Mode: "fail"}) == site {
+					idx = i
+					break
+				}
+			}
+			if idx < 0 {
+				res.Count("corpus-site-not-reached: " + ce.Name + " " + site)
+				continue
+			}
+			o, err := rn.RunCase(&Case{Program: ce.Program, Subject: subject, Fault: Fault{Index: idx, Mode: ce.Modes[k]}}, folder, ref, created)
+			if err != nil {
+				return nil, fmt.Errorf("corpus %s %s: %v", ce.Name, site, err)
+			}
+			record(o)
+		}
+		os.RemoveAll(folder)
 	}
 
 	shapes := mode.ShapesQuick
@@ -187,3 +223,51 @@ func Run(mode Mode, cfg *hx.RunCfg, emit func(res *hx.Result, o *Outcome)) (*hx.
 	return res, nil
 }
 
+
+// classify turns an oracle failure into a signature keyed by CAUSE where the cause is a known input class or a known
+// leak window of the rollback, and by the place of the injected failure otherwise.
+func classify(sig, site string, c *Case) string {
+	spec := c.Program.Txns[c.Subject]
+	if strings.HasPrefix(sig, "retry-crashed/") {
+		return sig // classified by the place where the retrying process died
+	}
+	// known input class (C19 findings): actively persisted values with a remove or an update in the transaction
+	for _, op := range spec.Ops {
+		if c.Program.Stores[op.Store].ActivelyP && (op.Kind == "rem" || op.Kind == "upd") {
+			return sig[:cut(sig)] + "/actively-persisted-remove-or-update"
+		}
+	}
+	if strings.HasPrefix(sig, "orphan-value-blob/") || strings.HasPrefix(sig, "retry-") {
+		return sig
+	}
+	if strings.HasPrefix(sig, "orphan-") {
+		k := sig
+		if i := strings.Index(k, "/"); i >= 0 {
+			k = k[:i] // the placement is irrelevant for node blobs and registry entries
+		}
+		return k + "/" + leakClass(site)
+	}
+	return sig + "@" + site
+}
+
+func cut(sig string) int {
+	if i := strings.Index(sig, "/"); i >= 0 {
+		return i
+	}
+	return len(sig)
+}
+
+// leakClass names the window of the commit in which the partial effects of the FAILING step are not rolled back
+// (rollback undoes only steps that completed before it): A = commitUpdatedNodes after the registry claim,
+// B = commitAddedNodes after the registry add, C = commitNewRootNodes after the root blob write.
+func leakClass(site string) string {
+	switch site {
+	case "step5:blob.Add", "step5:blob.Add+performed", "step5:reg.UpdateNoLocks+performed", "log(step 6)":
+		return "leak-A:updated-nodes-claimed-not-rolled-back"
+	case "step8:blob.Add", "step8:blob.Add+performed", "step8:reg.Add+performed":
+		return "leak-B:added-nodes-registered-not-rolled-back"
+	case "step4:reg.Add", "step4:blob.Add+performed":
+		return "leak-C:new-root-blob-not-rolled-back"
+	}
+	return "at:" + site
+}
